@@ -100,12 +100,18 @@ pub fn run(spec: &ScenarioSpec, ctx: &mut Ctx) -> Result<(), Violation> {
     ctx.rep.sim_time_ns += m.sim_time_ns();
     shape_of_model(ctx, &m, spec);
     prelude(spec.knob("prelude"), spec.seed, &m, ctx);
-    let n_unknown = m.events.iter().filter(|e| e.what == recorder::What::Unknown).count();
+    let n_unknown = m.events.iter().filter(|e| matches!(e.what, recorder::What::Unknown | recorder::What::SplitUnknown { .. })).count();
     let trailing = !spec.recorder.extras.trailing.is_empty();
     ctx.shape("extras", (n_unknown.min(3) as u64) | (trailing as u64) << 2);
     ctx.shape("api", (spec.api == Api::Incremental) as u64);
     ctx.probe_if(n_unknown > 0, "unknown events present");
     ctx.probe_if(trailing, "known events carry extra trailing bytes (newer version)");
+    for (i, e) in m.events.iter().enumerate() {
+        if let recorder::What::SplitUnknown { last: true, .. } = e.what {
+            let gecko_follows = m.events[i + 1..].iter().any(|p| matches!(p.what, recorder::What::Gecko { .. }));
+            ctx.probe(if gecko_follows { "unknown event delivered through splitter blocks before the Gecko list" } else { "unknown event delivered through splitter blocks" });
+        }
+    }
     // where did unknown events land?
     for (i, e) in m.events.iter().enumerate() {
         if e.what != recorder::What::Unknown {
